@@ -29,7 +29,7 @@ Decided:
   R08.g  no strict bytes<->text conversion (``.decode(codec)`` without an errors argument) on the part of the
          request path that no handler covers: the call-graph closure from Application.__call__ through call
          sites not enclosed in a handler catching UnicodeDecodeError (finding F13, DESIGN.md section 5).
-  R08.h  an HTTPException keeps its own status when it is non-breaking: the errors recorded while later routes were
+  R08.i  an HTTPException keeps its own status when it is non-breaking: the errors recorded while later routes were
          tried win over the null route's own 405 / 404 (the sentinel returns a recorded error whenever there is one; its
          405 and 404 are built only when none was recorded).
 Declined: exceptions raised by other primitive operations outside the protected region (arithmetic,
@@ -363,11 +363,11 @@ def run(rep):
         check_total_decoding(rep, 'R08.g', rp)
 
     def deferred_error_rules():
-        # ---- R08.h -----------------------------------------------------------
-        rep.rule('R08.h', 'a non-breaking HTTPException that was raised / returned and recorded is the answer when no later route gives '
+        # ---- R08.i -----------------------------------------------------------
+        rep.rule('R08.i', 'a non-breaking HTTPException that was raised / returned and recorded is the answer when no later route gives '
                           'one: the null route returns a recorded error before it considers its own 405 / 404')
         from .c06 import check_sentinel_priority
-        check_sentinel_priority(rep, 'R08.h', repo, app, route, most_recent=False)
+        check_sentinel_priority(rep, 'R08.i', repo, app, route, most_recent=False)
 
     # each group is analysed on its own: a construct one group cannot follow does not hide the verdicts of the others
     for group in (dispatch_rules, reraise_rules, store_rules, serialiser_rules, converter_rules, decoding_rules, deferred_error_rules):
